@@ -1,0 +1,49 @@
+//go:build verif
+
+package verifhook
+
+import (
+	"context"
+	"sync/atomic"
+)
+
+// Func is the signature of the callback installed by the harness.
+type Func func(point string, ids ...string)
+
+var hook atomic.Value // of Func
+
+// Set installs (or, with nil, removes) the callback.
+func Set(f Func) {
+	if f == nil {
+		f = func(string, ...string) {}
+	}
+	hook.Store(f)
+}
+
+// Enabled reports whether hooks are compiled in.
+func Enabled() bool { return true }
+
+// At reports that the calling goroutine reached the named point.
+func At(point string, ids ...string) {
+	if f, ok := hook.Load().(Func); ok && f != nil {
+		f(point, ids...)
+	}
+}
+
+type nameKey struct{}
+
+// WithName attaches a harness-chosen name (e.g. of a subscription) to a context.
+func WithName(ctx context.Context, name string) context.Context {
+	return context.WithValue(ctx, nameKey{}, name)
+}
+
+// Name returns the name attached with WithName, or "".
+func Name(ctx context.Context) string {
+	if ctx == nil {
+		return ""
+	}
+	if s, ok := ctx.Value(nameKey{}).(string); ok {
+		return s
+	}
+	return ""
+}
